@@ -176,7 +176,8 @@ class C07(Prop):
                   "running the real recorder and the model on the same generated histories each run and comparing every render() output.")
     level_note = ("Trusted: Coq kernel; hand-written model (tied by differential runs, not by translation). Sequential model: the Registry is one storage per "
                   "key (C06) and an AtomicBucket is its bag of samples (C05); the concurrent clause is checked by two free-running stress engines only (final totals under concurrent recording, which inherits "
-                  "C05's open finding: a sample pushed into a just-detached block is lost; and visibility of completed records to renders concurrent with upkeep/render, where nothing is excused). "
+                  "C05's open finding: a sample pushed into a just-detached block is lost - accepted as that finding only up to recorders x drains per key, "
+                  "a larger shortfall or any excess is a violation; and visibility of completed records to renders concurrent with upkeep/render, where nothing is excused). "
                   "Render/Upkeep are atomic steps of the model; that rests on the drain running under the distributions write lock (stated at Model.v [step]), tested, not proved. Doubles are restricted to quarter-exact values below 2^50 so that "
                   "f64 addition is integer addition (C07_sum_once states the accounting for any commutative monoid; rounding is not modelled); the "
                   "Display/parse round trip is an oracle tested on every rendered value and on a stream of arbitrary bit patterns set on gauges. HashMap order: "
